@@ -332,7 +332,7 @@ Proof.
   - exists []. rewrite app_nil_r. split; [reflexivity | constructor].
   - destruct (rs_stop s); [exists []; rewrite app_nil_r; split; [reflexivity | constructor]|].
     destruct (IH (run_test w o l t b s) (fun t' b' H => Hts t' b' (or_intror H))) as [ext [E Q]].
-    unfold run_test in *. destruct (fold_effect w o l t (proto b) s) as [_ [_ [_ [_ [_ [_ Hev]]]]]].
+    destruct (run_test_effect w o l t b s) as [_ [_ [_ [_ [_ [_ Hev]]]]]].
     rewrite Hev in E. exists (flat_map (p_ev w l t) (proto b) ++ ext). split; [rewrite E, <- app_assoc; reflexivity|].
     apply Forall_app. split; [apply p_ev_quiet; apply (Hts t b); now left | exact Q].
 Qed.
